@@ -10,11 +10,14 @@
                             (513 next.store of the fresh block: only BEFORE the fix, [fxa = false];
                              since the fix the link is written on the still private block and is
                              part of step 512)
-     is_empty               520 tail.load   521 read.load (then 507/508 only if the head shows nothing)
+     is_empty               520 tail.load   521 read.load of the head, then while a block shows nothing:
+                            507 next.load   508 read.load of that next block (loop since fix 0248974)
      data_with              530 tail.load   531 spin (one iteration of the wait loop)   532 next.load
      clear_with             540 tail.load   541 CAS tail->null   542 spin   543 next.load
    The block size is the parameter [B]; [fxa]/[fxc] select the code after (true) / before (false)
-   the two fix: commits (hand-over link order; is_empty looking at the whole bitmap).
+   the fix: commits (fxa: hand-over link order f69617a; fxc: is_empty looking at the whole bitmap
+   1a8142c AND walking the whole chain 0248974; the intermediate code - whole bitmap, one look-back -
+   is ProofsEmpty.step_lookback1).
    Every pushed value is a triple (thread, index of the call in the thread's program, payload):
    the ghost identity is part of the value (the driver's value type carries the same triple).
    Blocks are never reused (epoch reclamation is not modelled): a block id is its heap position.
@@ -120,6 +123,12 @@ Section Machine.
   Definition looks_empty (k : block) : bool :=
     if fxc then negb (existsb (fun x => x) (bdone k)) else Nat.eqb (tones (bdone k)) 0.
 
+  (* 508: the bitmap of a block behind the head.  Since fix 0248974 (fxc, together with the whole-bitmap
+     test of 1a8142c) is_empty walks the whole chain: a block that shows nothing sends the thread on
+     to that block's link (507 again); before, the answer was given after this one look-back. *)
+  Definition e3_next (l : local) (nb : nat) (e : bool) : local :=
+    if fxc then (if e then goto l (E2 nb) else finish l (REmpty false)) else finish l (REmpty e).
+
   Definition step (s : shared) (l : local) : option (shared * local) :=
     match pcl l with
     | Start => Some (s, enter (me l) (cidx l) (todo l) (results l))
@@ -207,7 +216,7 @@ Section Machine.
         | None => Some (s, finish l (REmpty true))
         | Some nb => Some (s, goto l (E3 nb))
         end
-    | E3 nb => Some (s, finish l (REmpty (looks_empty (getb (heap s) nb))))
+    | E3 nb => Some (s, e3_next l nb (looks_empty (getb (heap s) nb)))
     | Done => None
     end.
 End Machine.
